@@ -1,5 +1,4 @@
 // temporary stubs
 #include "sim.hpp"
-RunResult eng_value_run(const RunSpec &) { RunResult r; return r; }
 RunResult eng_walk_run(const RunSpec &) { RunResult r; return r; }
 RunResult eng_mix_run(const RunSpec &) { RunResult r; return r; }
